@@ -259,7 +259,9 @@ def gen_history(rng, reserved, fmt=None, steps=None, npts=None, plan=None):
                 names = pre[:cut] + bad + pre[cut:]
                 if bad_kind == "duplicate":
                     names = pre + bad if rng.random() < 0.5 else names
-                op = {"op": "remove", "names": names, "single": False, "as": rng.choice(["list", "tuple", "iter"]), "bad": bad_kind}
+                op = {"op": "remove", "names": names, "single": False, "as": rng.choice(["list", "tuple", "iter"])}
+                if bad_kind != "empty":
+                    op["bad"] = bad_kind
         h["ops"].append(op)
         if op["op"] == "add":
             shadow.extend(op["dims"])
@@ -574,6 +576,11 @@ def oracle(h, snaps):
                 if sn["fields"][n][2] != prev["fields"][n][2]:
                     out.append((f"{label}: other dimension changed", i, f"dimension {n!r}: {prev['fields'][n][2][:24].hex()} -> {sn['fields'][n][2][:24].hex()}"))
                     break
+            if k == "add" and status == "ok":
+                for n in named:
+                    if n in sn["fields"] and any(sn["fields"][n][2]):
+                        out.append(("added dimension not zero-initialised", i, f"dimension {n!r} starts as {sn['fields'][n][2][:16].hex()}"))
+                        break
             if k == "assign" and status == "ok":
                 n = bytes.fromhex(op["name"]).decode()
                 if n in sn["fields"] and sn["fields"][n][2] != bytes.fromhex(op["raw"]):
@@ -689,7 +696,7 @@ def systematic(ctx, reserved):
 def histories(ctx):
     reserved = reserved_names()
     hs = systematic(ctx, reserved)
-    for _ in range(ctx.n(140, 2500)):
+    for _ in range(ctx.n(500, 6000)):
         hs.append(gen_history(ctx.rng, reserved))
     return hs
 
@@ -731,7 +738,7 @@ def correspond(ctx):
         for step, opk, comp, a, b in compare(h, snaps, mline):
             dis.append({"kind": f"{opk}: {comp}", "input": {"history": h, "step": step}, "model": a, "impl": b})
     # descriptor decoding
-    descs = [rand_descriptor(ctx.rng) for _ in range(ctx.n(600, 6000))]
+    descs = [rand_descriptor(ctx.rng) for _ in range(ctx.n(1500, 15000))]
     outs = common.run_model(["eb_dec " + common.hexb(b) for b in descs], name="c13")
     for b, mo in zip(descs, outs):
         im = impl_decode(b)
